@@ -1,6 +1,7 @@
 package checks
 
 import (
+	"time"
 	"encoding/json"
 	"fmt"
 	"sort"
@@ -56,14 +57,14 @@ func walkStates(rel *storeRel, maxCap int, mk func(cap int) storeAdapter, conc *
 	return total
 }
 
-var findTraceSpec = tv.Spec{Module: "FindTrace", Config: "FindTrace.cfg"}
+var findTraceSpec = tv.Spec{Module: "FindTrace", Config: "FindTrace.cfg", Timeout: 30 * time.Minute}
 
 // filterUniverse: structured filters over the StoreMC universe.
 func filterUniverse() []abs.Filter {
 	ids := []abs.StrSet{{}, {P: true, S: []string{}}, {P: true, S: []string{"r1"}}, {P: true, S: []string{"r1", "p2", "x2", "k1", "y3"}}}
 	authors := []abs.StrSet{{}, {P: true, S: []string{"a"}}, {P: true, S: []string{"a", "b"}}, {P: true, S: []string{"b"}}}
 	kinds := []abs.IntSet{{}, {P: true, S: []int64{1}}, {P: true, S: []int64{0, 30000, 30002}}, {P: true, S: []int64{5}}, {P: true, S: []int64{}}}
-	tags := []map[string][]string{{}, {"t": {"x"}}, {"e": {"r1"}}, {"d": {"x"}}, {"a": {"30000:a:x"}}, {"p": {"a"}}, {"d": {""}}, {"t": {"x"}, "d": {"x", "y"}}, {"e": {"r1", "p2", "k1"}}}
+	tags := []map[string][]string{{}, {"t": {"x"}}, {"e": {"r1"}}, {"d": {"x"}}, {"a": {"30000:a:x"}}, {"p": {"a"}}, {"p": {"c"}}, {"t": {"z"}}, {"d": {""}}, {"t": {"x"}, "d": {"x", "y"}}, {"e": {"r1", "p2", "k1"}}}
 	times := [][2]abs.OptInt{{{}, {}}, {{P: true, V: 2}, {}}, {{}, {P: true, V: 2}}, {{P: true, V: 2}, {P: true, V: 3}}, {{P: true, V: 3}, {P: true, V: 3}}}
 	limits := []abs.OptInt{{}, {P: true, V: 0}, {P: true, V: 1}, {P: true, V: 2}}
 	var out []abs.Filter
@@ -150,7 +151,7 @@ func C03(run *core.Run) {
 	maxCap := 3
 	perState := 10
 	if run.Thorough() {
-		perState = 60
+		perState = 25
 	}
 	rel, ok := runStoreMC(run, maxCap)
 	distinct := core.NewDistinct()
@@ -209,7 +210,7 @@ func C03(run *core.Run) {
 	// random histories: queries after replacement, deletion and eviction happened
 	nt, steps := 40, 60
 	if run.Thorough() {
-		nt, steps = 300, 150
+		nt, steps = 150, 90
 	}
 	r := run.Rand("c03-hist")
 	var traces []tv.Trace
